@@ -228,6 +228,7 @@ class Run:
                     conds = {int(idx): (self._cond(t, idx), t) for idx, t in op["conds"]}
                     m = CRevisionModel(self.priors[op["prior"]][0], [c for c, _ in conds.values()])
                     self.models.append((m, op["prior"], conds))
+                    S.trace_addr(id(m) & 0xFFFFFFF, [id(c) & 0xFFFFFFF for c, _ in conds.values()][:3])
                     self.check_compilations(i, len(self.models) - 1, False)
                 elif k == "add":
                     m, pi, conds = self.models[op["model"]]
@@ -321,6 +322,7 @@ def run_scenario(doc, full_trace=False):
     res = {
         "violations": run.viol,
         "digest": S.digest(),
+        "addr_digest": S.addr_digest(),
         "events": S.n_events,
         "vtime": round(S.now, 6),
         "fired": dict(S.fired),
